@@ -55,6 +55,9 @@ func TimeFromProto(proto *dtpb.Time) Time {
 	duration := fhirconv.TimeToDuration(proto)
 	// Anchor the time of day on the date ParseTime uses (year 0), so that a Time
 	// read from an element and a Time literal are comparable instants.
+	if duration %= 24 * time.Hour; duration < 0 {
+		duration += 24 * time.Hour
+	}
 	t := time.Date(0, time.January, 1, 0, 0, 0, 0, time.UTC).Add(duration)
 	var l layout
 	switch proto.Precision {
